@@ -397,6 +397,14 @@ func closedRun(prop string, s closedScn, t *rapid.T, st *vStats, slot string) (s
 	defer o.w.close()
 	st.eval()
 	sig, msg := judgeClosed(s, o)
+	if sig != "" && !e2Confirmed(st, o.w, func(d []vs.Step) string {
+		o2 := runClosed(nil, s, d)
+		defer o2.w.close()
+		s2, _ := judgeClosed(s, o2)
+		return s2
+	}) {
+		return "", ""
+	}
 	if sig != "" {
 		vReport(vViolation{Property: prop, Slot: slot, Signature: sig, Message: msg, Replay: e2Replay{Scenario: s, Strategy: o.w.strategy, Decisions: o.w.trace()}})
 		return sig, msg
